@@ -14,6 +14,7 @@
 //   `lowerchg <i> <layer> <ser>`, `end`.
 #![allow(clippy::all)]
 use fuse_backend_rs::abi::fuse_abi::CreateIn;
+use fuse_backend_rs::abi::fuse_abi::FsOptions;
 use fuse_backend_rs::api::filesystem::{
     Context, FileSystem, GetxattrReply, Layer, ListxattrReply, SetattrValid,
 };
@@ -178,20 +179,31 @@ fn materialise(root: &Path, w: &[&str]) {
 }
 
 // ---------------------------------------------------------------- overlay side
-fn new_layer(dir: &Path) -> std::io::Result<Arc<BoxedLayer>> {
+// cfg letters (case header `cfg=...`): configuration cells switched on and negotiated through init():
+//   o no_open  d no_opendir  w writeback  k killpriv_v2  r no_readdir  a cache_policy=Always  n cache_policy=Never
+//   x perfile_dax  m do_import=false (everything the client offers is taken)  L the layers negotiate no_open/no_opendir too
+//   i init() is called at all (implied by every other letter except r, a, n)
+fn new_layer(dir: &Path, cfg: &str) -> std::io::Result<Arc<BoxedLayer>> {
     let mut config = passthrough::Config::default();
     config.root_dir = dir.to_string_lossy().into_owned();
     config.xattr = true;
     config.do_import = true;
+    if cfg.contains('L') {
+        config.no_open = true;
+        config.no_opendir = true;
+    }
     let fs = Box::new(PassthroughFs::<()>::new(config)?);
     fs.import()?;
+    if cfg.contains('L') {
+        fs.init(FsOptions::ZERO_MESSAGE_OPEN | FsOptions::ZERO_MESSAGE_OPENDIR)?;
+    }
     Ok(Arc::new(fs as BoxedLayer))
 }
-fn new_overlay(dirs: &[PathBuf], has_upper: bool) -> std::io::Result<OverlayFs> {
+fn new_overlay(dirs: &[PathBuf], has_upper: bool, cfg: &str) -> std::io::Result<OverlayFs> {
     let mut lowers = vec![];
     let mut upper = None;
     for (i, d) in dirs.iter().enumerate() {
-        let l = new_layer(d)?;
+        let l = new_layer(d, cfg)?;
         if i == 0 && has_upper {
             upper = Some(l);
         } else {
@@ -199,15 +211,76 @@ fn new_overlay(dirs: &[PathBuf], has_upper: bool) -> std::io::Result<OverlayFs> 
         }
     }
     let mut config = Config::default();
-    config.do_import = true;
+    config.do_import = !cfg.contains('m');
+    config.no_open = cfg.contains('o');
+    config.no_opendir = cfg.contains('d');
+    config.writeback = cfg.contains('w');
+    config.killpriv_v2 = cfg.contains('k');
+    config.no_readdir = cfg.contains('r');
+    config.perfile_dax = cfg.contains('x');
+    if cfg.contains('a') {
+        config.cache_policy = fuse_backend_rs::overlayfs::CachePolicy::Always;
+    }
+    if cfg.contains('n') {
+        config.cache_policy = fuse_backend_rs::overlayfs::CachePolicy::Never;
+    }
     let fs = OverlayFs::new(upper, lowers, config)?;
-    fs.import()?;
+    if cfg.chars().any(|c| "iodwkxm".contains(c)) {
+        let mut cap = FsOptions::empty();
+        if cfg.contains('m') {
+            // under a Vfs the capabilities are those already negotiated: offer exactly the requested cells
+            if cfg.contains('o') { cap |= FsOptions::ZERO_MESSAGE_OPEN; }
+            if cfg.contains('d') { cap |= FsOptions::ZERO_MESSAGE_OPENDIR; }
+            if cfg.contains('w') { cap |= FsOptions::WRITEBACK_CACHE; }
+            if cfg.contains('k') { cap |= FsOptions::HANDLE_KILLPRIV_V2; }
+        } else {
+            cap = FsOptions::ZERO_MESSAGE_OPEN | FsOptions::ZERO_MESSAGE_OPENDIR | FsOptions::WRITEBACK_CACHE
+                | FsOptions::HANDLE_KILLPRIV_V2 | FsOptions::PERFILE_DAX;
+        }
+        if cfg.contains('m') {
+            fs.import()?;
+        }
+        fs.init(cap)?;
+    } else {
+        fs.import()?;
+    }
     Ok(fs)
 }
 
 struct Ovl<'a> {
     fs: &'a OverlayFs,
     ctx: Context,
+    // ZERO_MESSAGE_OPEN / ZERO_MESSAGE_OPENDIR negotiated: the client sends no OPEN / OPENDIR, handle 0, and the
+    // file's open flags travel in every READ / WRITE
+    noopen: bool,
+    noopendir: bool,
+}
+fn parse_flags(spec: &str) -> i32 {
+    match spec {
+        "wt" => return libc::O_WRONLY | libc::O_TRUNC,
+        "a" => return libc::O_WRONLY | libc::O_APPEND,
+        _ => {}
+    }
+    let (acc, bits) = match spec.split_once('+') {
+        Some((a, b)) => (a, b),
+        None => (spec, ""),
+    };
+    let mut f = match acc {
+        "r" => libc::O_RDONLY,
+        "w" => libc::O_WRONLY,
+        "rw" => libc::O_RDWR,
+        _ => panic!("bad open flags"),
+    };
+    for ch in bits.chars() {
+        f |= match ch {
+            't' => libc::O_TRUNC,
+            'a' => libc::O_APPEND,
+            'c' => libc::O_CREAT,
+            'x' => libc::O_EXCL,
+            _ => panic!("bad open flag bit"),
+        };
+    }
+    f
 }
 type R<T> = std::io::Result<T>;
 impl<'a> Ovl<'a> {
@@ -228,39 +301,89 @@ impl<'a> Ovl<'a> {
             None => (".", path),
         }
     }
-    fn readdir_names(&self, ino: u64) -> R<Vec<(String, u32)>> {
-        let (h, _) = self.fs.opendir(&self.ctx, ino, libc::O_RDONLY as u32)?;
-        let h = h.unwrap_or(0);
+    // one full listing; `plus` = through READDIRPLUS, `size` = the size field of each request
+    fn list_once(&self, ino: u64, h: u64, plus: bool, size: u32) -> R<Vec<(String, u32)>> {
         let mut out: Vec<(String, u32)> = vec![];
         let mut off = 0u64;
         loop {
             let mut got = 0;
             let mut last = off;
-            let r = self.fs.readdir(&self.ctx, ino, h, 4096, off, &mut |d| {
-                got += 1;
-                last = d.offset;
-                let n = String::from_utf8_lossy(d.name).into_owned();
-                if n != "." && n != ".." {
-                    out.push((n, d.type_));
-                }
-                Ok(1)
-            });
-            if let Err(e) = r {
-                let _ = self.fs.releasedir(&self.ctx, ino, 0, h);
-                return Err(e);
-            }
+            let r = if plus {
+                self.fs.readdirplus(&self.ctx, ino, h, size, off, &mut |d, _e| {
+                    got += 1;
+                    last = d.offset;
+                    let n = String::from_utf8_lossy(d.name).into_owned();
+                    if n != "." && n != ".." {
+                        out.push((n, d.type_));
+                    }
+                    Ok(1)
+                })
+            } else {
+                self.fs.readdir(&self.ctx, ino, h, size, off, &mut |d| {
+                    got += 1;
+                    last = d.offset;
+                    let n = String::from_utf8_lossy(d.name).into_owned();
+                    if n != "." && n != ".." {
+                        out.push((n, d.type_));
+                    }
+                    Ok(1)
+                })
+            };
+            r?;
             if got == 0 {
                 break;
             }
             off = last;
         }
-        self.fs.releasedir(&self.ctx, ino, 0, h)?;
         out.sort();
         Ok(out)
     }
+    fn readdir_names(&self, ino: u64) -> R<Vec<(String, u32)>> {
+        let h = if self.noopendir {
+            0
+        } else {
+            let (h, _) = self.fs.opendir(&self.ctx, ino, libc::O_RDONLY as u32)?;
+            h.unwrap_or(0)
+        };
+        let res = self.list_once(ino, h, false, 4096);
+        let mut out = match res {
+            Ok(o) => o,
+            Err(e) => {
+                if !self.noopendir {
+                    let _ = self.fs.releasedir(&self.ctx, ino, 0, h);
+                }
+                return Err(e);
+            }
+        };
+        // twin entry point and request-size variation: READDIRPLUS and one-entry-per-request READDIR list the same
+        match self.list_once(ino, h, true, 4096) {
+            Ok(p) => {
+                if p != out {
+                    out.push(("!rdplus-differs".to_string(), 0));
+                }
+            }
+            Err(e) => out.push((format!("!rdplus-err{}", errno(&e)), 0)),
+        }
+        match self.list_once(ino, h, false, 1) {
+            Ok(p) => {
+                if p != out.iter().filter(|x| !x.0.starts_with('!')).cloned().collect::<Vec<_>>() {
+                    out.push(("!rdsmall-differs".to_string(), 0));
+                }
+            }
+            Err(e) => out.push((format!("!rdsmall-err{}", errno(&e)), 0)),
+        }
+        if !self.noopendir {
+            self.fs.releasedir(&self.ctx, ino, 0, h)?;
+        }
+        Ok(out)
+    }
     fn read_all(&self, ino: u64, off: u64, len: Option<u32>) -> R<Vec<u8>> {
-        let (h, _, _) = self.fs.open(&self.ctx, ino, libc::O_RDONLY as u32, 0)?;
-        let h = h.unwrap_or(0);
+        let h = if self.noopen {
+            0
+        } else {
+            let (h, _, _) = self.fs.open(&self.ctx, ino, libc::O_RDONLY as u32, 0)?;
+            h.unwrap_or(0)
+        };
         let mut out = vec![];
         let mut o = off;
         let res = loop {
@@ -285,7 +408,9 @@ impl<'a> Ovl<'a> {
                 Err(e) => break Err(e),
             }
         };
-        let _ = self.fs.release(&self.ctx, ino, 0, h, false, false, None);
+        if !self.noopen {
+            let _ = self.fs.release(&self.ctx, ino, 0, h, false, false, None);
+        }
         res.map(|_| out)
     }
     fn xattrs(&self, ino: u64) -> R<Vec<(String, Vec<u8>)>> {
@@ -493,33 +618,7 @@ impl<'a> Ovl<'a> {
             }
             "open" => {
                 let i = self.walk(w[1])?;
-                // "<access>[+<bits>]": access r | w | rw, bits t(runc) a(ppend) c(reat) x (excl); legacy "wt", "a"
-                let flags = match w[2] {
-                    "wt" => libc::O_WRONLY | libc::O_TRUNC,
-                    "a" => libc::O_WRONLY | libc::O_APPEND,
-                    spec => {
-                        let (acc, bits) = match spec.split_once('+') {
-                            Some((a, b)) => (a, b),
-                            None => (spec, ""),
-                        };
-                        let mut f = match acc {
-                            "r" => libc::O_RDONLY,
-                            "w" => libc::O_WRONLY,
-                            "rw" => libc::O_RDWR,
-                            _ => panic!("bad open flags"),
-                        };
-                        for ch in bits.chars() {
-                            f |= match ch {
-                                't' => libc::O_TRUNC,
-                                'a' => libc::O_APPEND,
-                                'c' => libc::O_CREAT,
-                                'x' => libc::O_EXCL,
-                                _ => panic!("bad open flag bit"),
-                            };
-                        }
-                        f
-                    }
-                };
+                let flags = parse_flags(w[2]);
                 let (h, _, _) = self.fs.open(c, i, flags as u32, 0)?;
                 if let Some(h) = h {
                     self.fs.release(c, i, 0, h, false, false, None)?;
@@ -530,13 +629,21 @@ impl<'a> Ovl<'a> {
                 let i = self.walk(w[1])?;
                 let off = w[2].parse::<u64>().unwrap();
                 let data = unhex(w[3]);
-                let (h, _, _) = self.fs.open(c, i, libc::O_WRONLY as u32, 0)?;
-                let h = h.unwrap_or(0);
+                // optional 5th word: the flag word carried by the WRITE request itself (default: that of the open)
+                let wflags = if w.len() > 4 { parse_flags(w[4]) } else { libc::O_WRONLY } as u32;
+                let h = if self.noopen {
+                    0
+                } else {
+                    let (h, _, _) = self.fs.open(c, i, libc::O_WRONLY as u32, 0)?;
+                    h.unwrap_or(0)
+                };
                 let mut f = memfd();
                 f.write_all(&data).unwrap();
                 f.seek(SeekFrom::Start(0)).unwrap();
-                let r = self.fs.write(c, i, h, &mut f, data.len() as u32, off, None, false, 0, 0);
-                let _ = self.fs.release(c, i, 0, h, false, false, None);
+                let r = self.fs.write(c, i, h, &mut f, data.len() as u32, off, None, false, wflags, 0);
+                if !self.noopen {
+                    let _ = self.fs.release(c, i, 0, h, false, false, None);
+                }
                 Ok(format!("{:x}", r?))
             }
             "chmod" => {
@@ -575,6 +682,120 @@ impl<'a> Ovl<'a> {
                 self.fs.removexattr(c, i, &cstr(w[2]))?;
                 Ok(String::new())
             }
+            // ---- entry points without a model operation of their own (predicate-only blocks)
+            "forget" | "bforget" => {
+                let i = self.walk(w[1])?;
+                let n: u64 = w[2].parse().unwrap();
+                if w[0] == "forget" {
+                    self.fs.forget(c, i, n);
+                } else {
+                    self.fs.batch_forget(c, vec![(i, n)]);
+                }
+                Ok(String::new())
+            }
+            "flush" | "fsync" | "fdatasync" | "lseek" | "fallocate" | "getattrh" | "truncateh" => {
+                // through a handle opened with the given flag word (w[2])
+                let i = self.walk(w[1])?;
+                let (h, _, _) = self.fs.open(c, i, parse_flags(w[2]) as u32, 0)?;
+                let h = h.unwrap_or(0);
+                let r = match w[0] {
+                    "flush" => self.fs.flush(c, i, h, 0).map(|_| String::new()),
+                    "fsync" => self.fs.fsync(c, i, false, h).map(|_| String::new()),
+                    "fdatasync" => self.fs.fsync(c, i, true, h).map(|_| String::new()),
+                    "lseek" => self.fs.lseek(c, i, h, w[3].parse().unwrap(), w[4].parse().unwrap()).map(|o| format!("{:x}", o)),
+                    "fallocate" => self.fs.fallocate(c, i, h, w[3].parse().unwrap(), w[4].parse().unwrap(), w[5].parse().unwrap()).map(|_| String::new()),
+                    "getattrh" => self.fs.getattr(c, i, Some(h)).map(|(a, _)| format!("{}:{:x}", Self::kind_of(&a), a.st_size)),
+                    _ => {
+                        let mut st: libc::stat64 = unsafe { std::mem::zeroed() };
+                        st.st_size = w[3].parse::<i64>().unwrap();
+                        self.fs.setattr(c, i, st, Some(h), SetattrValid::SIZE).map(|(a, _)| Self::kind_of(&a))
+                    }
+                };
+                let _ = self.fs.release(c, i, 0, h, false, false, None);
+                r
+            }
+            "fsyncdir" => {
+                let i = self.walk(w[1])?;
+                let (h, _) = self.fs.opendir(c, i, libc::O_RDONLY as u32)?;
+                let h = h.unwrap_or(0);
+                let r = self.fs.fsyncdir(c, i, false, h).map(|_| String::new());
+                let _ = self.fs.releasedir(c, i, 0, h);
+                r
+            }
+            "access" => {
+                let i = self.walk(w[1])?;
+                self.fs.access(c, i, w[2].parse().unwrap())?;
+                Ok(String::new())
+            }
+            "statfs" => {
+                let i = self.walk(w[1])?;
+                let st = self.fs.statfs(c, i)?;
+                Ok(format!("{}", (st.f_namemax > 0) as u32))
+            }
+            "setattrx" => {
+                // setattrx <path> <valid letters m s u g a t k> <modehex> <size> <uid> <gid>
+                let i = self.walk(w[1])?;
+                let mut st: libc::stat64 = unsafe { std::mem::zeroed() };
+                let mut valid = SetattrValid::empty();
+                for ch in w[2].chars() {
+                    valid |= match ch {
+                        'm' => SetattrValid::MODE,
+                        's' => SetattrValid::SIZE,
+                        'u' => SetattrValid::UID,
+                        'g' => SetattrValid::GID,
+                        'a' => SetattrValid::ATIME,
+                        't' => SetattrValid::MTIME,
+                        'k' => SetattrValid::KILL_SUIDGID,
+                        'n' => SetattrValid::ATIME_NOW | SetattrValid::MTIME_NOW,
+                        _ => panic!("bad valid letter"),
+                    };
+                }
+                st.st_mode = u32::from_str_radix(w[3], 16).unwrap();
+                st.st_size = w[4].parse::<i64>().unwrap();
+                st.st_uid = w[5].parse().unwrap();
+                st.st_gid = w[6].parse().unwrap();
+                st.st_atime = 1_000_000;
+                st.st_mtime = 2_000_000;
+                let (a, _) = self.fs.setattr(c, i, st, None, valid)?;
+                Ok(Self::kind_of(&a))
+            }
+            "createx" => {
+                // createx <path> <flag word> <modehex>
+                let (p, n) = Self::split(w[1]);
+                let pi = self.walk(p)?;
+                let mode = u32::from_str_radix(w[3], 16).unwrap();
+                let args = CreateIn { flags: parse_flags(w[2]) as u32, mode: libc::S_IFREG | mode, umask: 0, fuse_flags: 0 };
+                let (e, h, _, _) = self.fs.create(c, pi, &cstr(n), args)?;
+                if let Some(h) = h {
+                    let _ = self.fs.release(c, e.inode, 0, h, false, false, None);
+                }
+                Ok(Self::kind_of(&e.attr))
+            }
+            "lookupname" => {
+                // lookup of a raw name (".", "..", "", "a/b") under a directory
+                let i = self.walk(w[1])?;
+                let name = if w.len() > 2 { w[2] } else { "" };
+                let e = self.fs.lookup(c, i, &cstr(name))?;
+                Ok(Self::kind_of(&e.attr))
+            }
+            "mkdirname" | "createname" | "unlinkname" | "rmdirname" => {
+                let i = self.walk(w[1])?;
+                let name = if w.len() > 2 { w[2] } else { "" };
+                match w[0] {
+                    "mkdirname" => self.fs.mkdir(c, i, &cstr(name), 0o755, 0).map(|e| Self::kind_of(&e.attr)),
+                    "createname" => {
+                        let args = CreateIn { flags: (libc::O_RDWR | libc::O_CREAT | libc::O_EXCL) as u32, mode: libc::S_IFREG | 0o644, umask: 0, fuse_flags: 0 };
+                        self.fs.create(c, i, &cstr(name), args).map(|(e, h, _, _)| {
+                            if let Some(h) = h {
+                                let _ = self.fs.release(c, e.inode, 0, h, false, false, None);
+                            }
+                            Self::kind_of(&e.attr)
+                        })
+                    }
+                    "unlinkname" => self.fs.unlink(c, i, &cstr(name)).map(|_| String::new()),
+                    _ => self.fs.rmdir(c, i, &cstr(name)).map(|_| String::new()),
+                }
+            }
             _ => panic!("unknown op {}", w[0]),
         }
     }
@@ -587,6 +808,7 @@ fn run_case(lines: &[String], scratch: &Path, out: &mut impl Write) {
     let mut nlow = 1usize;
     let mut names: Vec<String> = vec![];
     let mut restart = false;
+    let mut cfg = String::new();
     for kv in &hdr[2..] {
         let (k, v) = kv.split_once('=').unwrap();
         match k {
@@ -594,6 +816,7 @@ fn run_case(lines: &[String], scratch: &Path, out: &mut impl Write) {
             "nlow" => nlow = v.parse().unwrap(),
             "names" => names = v.split(',').map(|s| s.to_string()).collect(),
             "restart" => restart = v == "1",
+            "cfg" => cfg = v.to_string(),
             _ => {}
         }
     }
@@ -628,7 +851,7 @@ fn run_case(lines: &[String], scratch: &Path, out: &mut impl Write) {
         writeln!(out, "raw {} {}", k, r).unwrap();
         raws.push(r);
     }
-    let fs = match new_overlay(&dirs, has_upper) {
+    let fs = match new_overlay(&dirs, has_upper, &cfg) {
         Ok(f) => f,
         Err(e) => {
             writeln!(out, "mountfail {}", errno(&e)).unwrap();
@@ -637,11 +860,11 @@ fn run_case(lines: &[String], scratch: &Path, out: &mut impl Write) {
             return;
         }
     };
-    let o = Ovl { fs: &fs, ctx: Context::default() };
+    let o = Ovl { fs: &fs, ctx: Context::default(), noopen: cfg.contains('o'), noopendir: cfg.contains('d') };
     // the restarted view before any operation is computed first, on untouched directories
     if restart {
-        match new_overlay(&dirs, has_upper) {
-            Ok(f2) => writeln!(out, "restart {}", Ovl { fs: &f2, ctx: Context::default() }.dump(&names)).unwrap(),
+        match new_overlay(&dirs, has_upper, &cfg) {
+            Ok(f2) => writeln!(out, "restart {}", Ovl { fs: &f2, ctx: Context::default(), noopen: cfg.contains('o'), noopendir: cfg.contains('d') }.dump(&names)).unwrap(),
             Err(e) => writeln!(out, "restart !mountfail{}", errno(&e)).unwrap(),
         }
     }
@@ -659,8 +882,8 @@ fn run_case(lines: &[String], scratch: &Path, out: &mut impl Write) {
             let v = catch_unwind(AssertUnwindSafe(|| o.dump(&names))).unwrap_or_else(|_| "!panic".to_string());
             writeln!(out, "view {}", v).unwrap();
             if restart {
-                match new_overlay(&dirs, has_upper) {
-                    Ok(f2) => writeln!(out, "restart {}", Ovl { fs: &f2, ctx: Context::default() }.dump(&names)).unwrap(),
+                match new_overlay(&dirs, has_upper, &cfg) {
+                    Ok(f2) => writeln!(out, "restart {}", Ovl { fs: &f2, ctx: Context::default(), noopen: cfg.contains('o'), noopendir: cfg.contains('d') }.dump(&names)).unwrap(),
                     Err(e) => writeln!(out, "restart !mountfail{}", errno(&e)).unwrap(),
                 }
             }
